@@ -71,6 +71,9 @@ def _cell_eq(a, b):
     if isinstance(a, T) or isinstance(b, T):
         if a is b:
             return True
+        other = b if isinstance(a, T) else a
+        if isinstance(other, str) and other not in "0123456789.+-eEinfaINFA":
+            return False  # a rendered number never contains this character
         raise Inconclusive("comparison of an opaque numeric token")
     if isinstance(a, D):
         if isinstance(b, str):
